@@ -916,6 +916,7 @@ func (w *world) runConcurrent() *runResult {
 			}
 		}
 		res.stats.Windows++
+		tickProgress() // scheduler goroutine only: long scenarios are not hangs
 		if res.stats.Steps > maxScenarioSteps {
 			panic(harnessf("scenario exceeded %d steps", maxScenarioSteps))
 		}
